@@ -1069,6 +1069,12 @@ func (b *BaseStore) storeListener(topic iface.PubSubTopic) error {
 			}
 
 			evt := e.(stores.EventWrite)
+			if evt.Address == nil || evt.Address.String() != b.Address().String() {
+				// the bus may be shared by every store of an orbitdb instance:
+				// only announce the writes of this store
+				continue
+			}
+
 			go func() {
 				// @TODO(gfanton): HandleEventWrite trigger a
 				// publish that is a blocking call if no peers
